@@ -221,7 +221,9 @@ async def scenario(loop, case):
                 xknx.management.process(tg)
             except Exception as e:  # noqa: BLE001
                 raised = ":" + type(e).__name__
-            rec.log("i", rec.now(), a, fid, op[2], *pre)
+            conn2 = xknx.management._connections.get(ADDR[a])
+            post = conn2._expected_sequence_number if conn2 is not None and conn2 is conn else pre[2]
+            rec.log("i", rec.now(), a, fid, op[2], *pre, post)     # anchored state before, and the expected number after
             if raised:
                 rec.ev[-1] += raised
         else:
@@ -253,6 +255,8 @@ def project(events, peer):
             continue
         if f[0] in ("uc", "ux", "z") or (a != peer and f[0] not in ("i", "a", "x")):
             continue
+        if f[0] == "i":
+            f = f[:8] + f[9:]       # the monitor gets the pre-state only
         out.append(":".join(f))
     return out
 
@@ -300,6 +304,8 @@ def check_trace(case, out):
     sent = {}        # (addr, epoch) -> list of (n, apdu, request index)
     reqno = {1: 0, 2: 0, 3: 0}
     exp_seen = {}
+    stored = {}      # (addr, epoch) -> step of the in-sequence response waiting for a request
+    cur = {}         # addr -> transmissions and received frames of the request in flight
     due_ack, got_ack, due_disc, got_disc = [], [], [], []
     for f in ev:
         k = f[0]
@@ -316,9 +322,18 @@ def check_trace(case, out):
         elif k == "c":
             is_open[a] = False
         elif k == "i":
-            fid, frame, hc, cn, exp = int(f[3]), f[4], int(f[5]), int(f[6]), int(f[7])
-            if len(f) > 8:
-                msgs.append(f"process() raised {f[8]} on frame {frame} from {a} (step {fid})")
+            fid, frame, hc, cn, exp, pexp = int(f[3]), f[4], int(f[5]), int(f[6]), int(f[7]), int(f[8])
+            if len(f) > 9:
+                msgs.append(f"process() raised {f[9]} on frame {frame} from {a} (step {fid})")
+            if hc and frame[0] == "D" and pexp != exp:
+                # the connection took this frame as the next in-sequence response: it waits for the request that uses it
+                if pexp != (exp + 1) % 16 or int(frame[1:].split(".")[0]) != exp:
+                    msgs.append(f"expected number moved from {exp} to {pexp} on frame {frame} (step {fid})")
+                stored[(a, epoch[a])] = fid
+            elif hc and pexp != exp:
+                msgs.append(f"expected number moved from {exp} to {pexp} on the non-data frame {frame} (step {fid})")
+            if hc and a in cur:
+                cur[a]["rx"].append((t, frame))
             rx[fid] = (a, frame, hc, cn, exp, epoch[a])
             if hc:
                 # the anchored expected number is a modulo-16 counter of in-sequence data frames
@@ -346,14 +361,27 @@ def check_trace(case, out):
         elif k == "q":
             pend[a] = (t, int(f[4]))
             reqno[a] += 1
+            cur[a] = {"tx": [], "rx": []}
         elif k == "d":
             sent.setdefault((a, epoch[a]), []).append((int(f[3]), int(f[4]), reqno[a]))
+            if a in cur:
+                cur[a]["tx"].append((t, int(f[3]), len(cur[a]["rx"])))
         elif k == "r":
             if a not in pend:
                 msgs.append(f"result without request on {a}")
                 continue
             t0, expect = pend.pop(a)
             kind = f[3]
+            acked = ack_decided(cur.pop(a, None))
+            key = (a, epoch[a])
+            if kind == "err" and acked:
+                stored.pop(key, None)       # acknowledged, then failed: the pending response was handed to it and rejected
+            if kind == "ok":
+                if stored.get(key) != int(f[4]):
+                    msgs.append(f"request on {a} returned the telegram of step {f[4]}, which is not the pending in-sequence "
+                                f"response (pending: step {stored.get(key)}): a response already handed to an earlier request, "
+                                f"or one the connection never took")
+                stored.pop(key, None)
             if kind.startswith("other"):
                 msgs.append(f"request failed with {kind[6:]}, not a management error")
             if t - t0 > bound:
@@ -412,6 +440,25 @@ def check_trace(case, out):
     if sorted(due_disc) != sorted(got_disc):
         msgs.append(f"T_Disconnect refusals sent to {sorted(got_disc)}, incoming T_Connect without connection from {sorted(due_disc)}")
     return msgs
+
+
+def ack_decided(req):
+    """Was the request's data frame acknowledged with its own number? The first T_ACK / T_NAK / T_Disconnect received
+    within ACK_TIMEOUT after a transmission decides; later ones are ignored."""
+    if not req or not req["tx"]:
+        return False
+    for i, (t_tx, n, pos) in enumerate(req["tx"]):
+        end = req["tx"][i + 1][2] if i + 1 < len(req["tx"]) else len(req["rx"])
+        for t, frame in req["rx"][pos:end]:
+            if t >= t_tx + ACK:
+                break
+            if frame == "X":
+                return False
+            if frame[0] == "N":
+                return False
+            if frame[0] == "A":
+                return int(frame[1:]) == n
+    return False
 
 
 def finding_key(case, msg):
@@ -505,7 +552,7 @@ class Script:
         s, e = self.send, self.exp
         self.add(f"q {p} {kind}")
         self.steps.append(rng.choice(["y", "y", "s"]))
-        m = rng.randrange(22)
+        m = rng.randrange(23)
         advanced_exp = True
         if m == 0:      # data before ack
             self.rx(f"D{e}.{code}"); self.sep(); self.rx(f"A{s}")
@@ -546,6 +593,17 @@ class Script:
             self.rx("C", 3); self.rx(f"A{s}"); self.sep(); self.rx(f"D{e}.{code}")
         elif m == 17:   # ack timeout boundary then ack twice
             self.add(f"w {ACK}"); self.rx(f"A{s}"); self.rx(f"A{s}"); self.sep(); self.rx(f"D{e}.{code}")
+        elif m in (19, 20):   # in-sequence response of the wrong type, then a request expecting exactly that type
+            other = "M" if kind != "M" else "D"
+            oc = REQ[other][2]
+            self.rx(f"A{s}"); self.sep(); self.rx(f"D{e}.{oc}"); self.add("s")
+            if self.rate:
+                self.add(f"w {round(1 / self.rate / TICK)}")
+            s2, e2 = (s + 1) % 16, (e + 1) % 16
+            self.add(f"q {p} {other}", "y"); self.rx(f"A{s2}"); self.sep()
+            if rng.random() < 0.7:
+                self.rx(f"D{e2}.{oc}")
+            s, e = s2, e2
         elif m == 18:   # response exactly at connection timeout, then ack again
             self.rx(f"A{s}"); self.add("s", f"w {CONN}"); self.rx(f"D{e}.{code}"); self.rx(f"A{s}")
         else:
@@ -585,6 +643,18 @@ def generate(rng, tier):
                 yield case_of(pre + ["q 1 D", "y", f"i 1 {fr}{n}", "s", f"i 1 D{start}.1", "s", "c 1"], 0, "F2")
             yield case_of(pre + ["q 1 D", "y", f"i 1 A{start}", "s", f"i 1 D{n}.1", "s", f"i 1 D{n}.1", "s", "c 1"], 0, "F2")
             yield case_of(pre + [f"i 1 D{n}.1", "s", f"i 1 D{n}.1", f"i 1 D{(n + 1) % 16}.1", "s", "q 1 D", "y", f"i 1 A{start}", "s", "c 1"], 0, "F2")
+    # F7: a response of the wrong type (rejected), then a request that expects exactly that type; also with the
+    # rejected response arriving before the ACK, and with the first request failing in the ACK phase instead
+    for k1, k2 in (("D", "M"), ("M", "D"), ("D", "R")):
+        c2 = REQ[k2][2] or 2
+        for first in ([f"i 1 A0", f"i 1 D0.{c2}"], [f"i 1 D0.{c2}", "i 1 A0"], [f"i 1 D0.{c2}", "i 1 N0"],
+                      [f"i 1 D0.{c2}", "i 1 A5"], [f"i 1 D0.{c2}", f"w {2 * ACK}"]):
+            for second in (["i 1 A1", f"i 1 D1.{c2}"], ["i 1 A1"], [f"i 1 D1.{c2}", "i 1 A1"]):
+                for sep in ("", "y", "s"):
+                    st = ["o 1", f"q 1 {k1}", "y"] + first + ["s", f"q 1 {k2}", "y"]
+                    for x in second:
+                        st += [x] + ([sep] if sep else [])
+                    yield case_of(st + ["s", "c 1"], 0, "F7")
     # F3: timing boundaries
     for w1 in BOUNDARY_WAITS:
         for w2 in ([0] + BOUNDARY_WAITS if thorough else [0, ACK, CONN - 1, CONN, CONN + 1]):
